@@ -386,4 +386,162 @@ theorem meek_record_monotone (hA : LawfulArith A) (hz : A.isZero A.zero = true) 
     rw [ht]
     exact hP.1.meekEpilogue A hA hz o hP.2
 
+/-! ## the log of a Meek / Warren count is append-only -/
+
+theorem breakTie_ballotsEq' (s : St α) (tied : List (Cand α)) (verb : String) : (breakTie A s tied verb).1.ballotsEq = s.ballotsEq := by
+  unfold breakTie
+  split
+  · unfold St.setCrash; cases s.crash <;> rfl
+  · rfl
+  · unfold St.logAct; simp only; split <;> rfl
+
+
+theorem ext_distribute (w : Bool) (s : St α) (hq : s.ballotsEq = []) : Ext s (distributeVotes A w s) :=
+  Ext.of_acts_eq (distributeVotes_frame A w s hq).2.2.2.2
+
+theorem ext_logMsg (s : St α) (verb : String) (subj : List Nat) (v : Option α) : Ext s (s.logMsg verb subj v) := by
+  unfold Ext St.logMsg
+  exact List.suffix_cons _ _
+
+theorem ext_meekIterCore (o : MeekOpts) (s : St α) (hq : s.ballotsEq = []) : Ext s (Droop.meekIterCore A o s) := by
+  unfold Droop.meekIterCore
+  dsimp only
+  refine Ext.trans ?_ (ext_setSurplus _ _)
+  refine Ext.trans ?_ (ext_foldl (fun acc (c : Cand α) => acc.elect A c.cid "Elect" false) (fun s x => ext_elect A s _ _ _) _ _)
+  exact (ext_distribute A o.warren s hq).trans (Ext.of_acts_eq rfl)
+
+theorem ext_kfUpdate (cap : Bool) (s : St α) : Ext s (Droop.kfUpdate A cap s) := by
+  rw [kfUpdate_eq]
+  apply ext_foldl
+  intro t c
+  unfold Droop.kfStep
+  split
+  · split
+    · exact ext_setCrash t _
+    · exact Ext.of_acts_eq rfl
+  · exact ext_setCrash t _
+
+theorem ext_meekIterate (hA : LawfulArith A) (o : MeekOpts) (omega : α) :
+    ∀ (fuel : Nat) (last : α) (s : St α), MInv A s → Ext s (Droop.meekIterate A o omega fuel last s).1 := by
+  intro fuel
+  induction fuel with
+  | zero => intro last s _; exact Ext.refl s
+  | succ n ih =>
+    intro last s hI
+    unfold Droop.meekIterate
+    have hc := ext_meekIterCore A o s hI.noEq
+    have hIc := hI.meekIterCore A hA o
+    repeat' split
+    all_goals first
+      | exact hc
+      | exact hc.trans (ext_logMsg _ _ _ _)
+      | exact hc.trans (ext_kfUpdate A true _)
+      | exact (hc.trans (ext_kfUpdate A true _)).trans (ih _ _ (hIc.kfUpdate A true))
+
+theorem ext_meekDefeatOne (o : MeekOpts) (s : St α) (hq : s.ballotsEq = []) (cid : Nat) (verb : String) :
+    Ext s (Droop.meekDefeatOne A o s cid verb) := by
+  unfold Droop.meekDefeatOne
+  have h1 : Ext s ((s.defeat A cid verb).upd cid (fun c => { c with kf := some A.zero, vote := A.zero })) :=
+    (ext_defeat A s cid verb).trans (Ext.of_acts_eq rfl)
+  refine h1.trans (ext_distribute A o.warren _ ?_)
+  unfold St.defeat St.logAct; simp only; split <;> exact hq
+
+theorem ext_meekDefeatBatch (hA : LawfulArith A) (hz : A.isZero A.zero = true) (o : MeekOpts) (u : St α) (hI : MInv A u)
+    (cids : List Nat) : Ext u (Droop.meekDefeatBatch A o u cids) := by
+  unfold Droop.meekDefeatBatch
+  generalize byBallotOrder (u.cands.filter (fun c => cids.contains c.cid)) = l
+  induction l generalizing u with
+  | nil => exact Ext.refl u
+  | cons c cs ih =>
+    simp only [List.foldl_cons]
+    exact (ext_meekDefeatOne A o u hI.noEq _ _).trans (ih _ (hI.meekDefeatOne A hA hz o c.cid _))
+
+theorem ext_meekBody (hA : LawfulArith A) (hz : A.isZero A.zero = true) (o : MeekOpts) (omega : α) (fuel : Nat) (s : St α)
+    (hI : MInv A s) : Ext s (Droop.meekBody A o omega fuel s).1 := by
+  unfold Droop.meekBody
+  have h1 := (ext_newRound A s).trans (ext_meekIterate A hA o omega fuel (A.ofInt (s.newRound A).nballots) _ (hI.newRound A))
+  have hIr := MInv.meekIterate A hA o omega fuel (A.ofInt (s.newRound A).nballots) _ (hI.newRound A)
+  generalize Droop.meekIterate A o omega fuel (A.ofInt (s.newRound A).nballots) (s.newRound A) = r at h1 hIr
+  obtain ⟨t, st⟩ := r
+  refine h1.trans ?_
+  have hlow : ∀ b, Ext (t.logAct A "iterate" (if b then "Iterate (omega)" else "Iterate (stable)") [])
+      (Droop.meekDefeatLow A o (t.logAct A "iterate" (if b then "Iterate (omega)" else "Iterate (stable)") []) b).1 := by
+    intro b
+    have hIl := hIr.logAct A "iterate" (if b then "Iterate (omega)" else "Iterate (stable)") []
+    generalize t.logAct A "iterate" (if b then "Iterate (omega)" else "Iterate (stable)") [] = u at hIl
+    unfold Droop.meekDefeatLow
+    split
+    · exact Ext.refl u
+    · rename_i hd hs _
+      have hfr := breakTie_ballotsEq' A u (u.hopeful.filter (fun c => A.ge (A.add (A.vMin hd.vote (hs.map (·.vote))) u.surplus) c.vote)) "Break tie (defeat)"
+      have hbx := ext_breakTie A u (u.hopeful.filter (fun c => A.ge (A.add (A.vMin hd.vote (hs.map (·.vote))) u.surplus) c.vote)) "Break tie (defeat)"
+      cases hb : Droop.breakTie A u (u.hopeful.filter (fun c => A.ge (A.add (A.vMin hd.vote (hs.map (·.vote))) u.surplus) c.vote)) "Break tie (defeat)" with
+      | mk s3 oc =>
+        rw [hb] at hfr hbx
+        cases oc with
+        | none => exact hbx
+        | some lc => exact hbx.trans (ext_meekDefeatOne A o s3 (by simp only at hfr; rw [hfr]; exact hIl.noEq) _ _)
+  unfold Droop.meekAfterIterate
+  cases st with
+  | fuel => exact ext_setCrash t _
+  | crash => exact Ext.refl t
+  | elected => exact ext_logAct A _ _ _ _
+  | batch cids =>
+    show Ext t (Droop.meekDefeatBatch A o (t.logAct A "iterate" "Iterate (batch)" []) cids)
+    exact (ext_logAct A t "iterate" "Iterate (batch)" []).trans
+      (ext_meekDefeatBatch A hA hz o _ (hIr.logAct A "iterate" "Iterate (batch)" []) cids)
+  | omega => exact (ext_logAct A t "iterate" "Iterate (omega)" []).trans (hlow true)
+  | stable => exact (ext_logAct A t "iterate" "Iterate (stable)" []).trans (hlow false)
+
+theorem ext_meekInit {s0 : St α} (h0 : MInit A s0) : Ext s0 (Droop.meekInit A s0) := by
+  unfold Droop.meekInit
+  refine Ext.trans (Ext.of_acts_eq ?_) (ext_logAct A _ _ _ _)
+  have e := meekFirstCount_eq A
+    (((s0.setVotes (A.ofInt s0.nballots)).setQuota (meekQuota A (s0.setVotes (A.ofInt s0.nballots)))).initKf A.one) h0.noEq
+  rw [e, foldl_mfcStep_acts]
+  rfl
+
+theorem ext_meekEpilogue (hA : LawfulArith A) (hz : A.isZero A.zero = true) (o : MeekOpts) (s : St α) (hI : MInv A s) :
+    Ext s (Droop.meekEpilogue A o s) := by
+  unfold Droop.meekEpilogue
+  split
+  · exact Ext.refl s
+  · unfold meekFinal
+    refine Ext.trans ?_ (Ext.of_acts_eq rfl)
+    have key : ∀ (l : List (Cand α)) (t : St α), MInv A t → Ext t (l.foldl (Droop.meekRemainingStep A o) t) := by
+      intro l
+      induction l with
+      | nil => intro t _; exact Ext.refl t
+      | cons c cs ih =>
+        intro t ht
+        simp only [List.foldl_cons]
+        refine Ext.trans ?_ (ih _ (ht.meekRemainingStep A hA hz o c))
+        unfold Droop.meekRemainingStep
+        split
+        · exact (ext_elect A t _ _ _).trans (ext_distribute A o.warren _ (by unfold St.elect St.logAct; simp only; split <;> exact ht.noEq))
+        · exact ext_meekDefeatOne A o t ht.noEq _ _
+    exact key _ _ hI
+
+/-- **C09 for meek and warren, run level**: the log of whatever the count returns extends the log it started with -/
+theorem meek_record_appendOnly (hA : LawfulArith A) (hz : A.isZero A.zero = true) (o : MeekOpts) (iterFuel : Nat) (s0 t : St α)
+    (h0 : MInit A s0) (h : meekCount A o iterFuel s0 = some t) : Ext s0 t := by
+  unfold meekCount at h
+  by_cases hn : (A.name == "integer") = true
+  · rw [if_pos hn] at h
+    have ht : t = s0.setCrash "AssertionError" := (Option.some.inj h).symm
+    rw [ht]; exact ext_setCrash s0 _
+  rw [if_neg hn] at h
+  cases hl : loopN (fun s => !meekCountComplete s) (meekBody A o (A.divV A.one (A.ofInt (10 ^ o.omega10))) iterFuel)
+      (2 * s0.cands.length + 3) (meekInit A s0) with
+  | none => rw [hl] at h; cases h
+  | some s7 =>
+    rw [hl] at h
+    have ht : t = meekEpilogue A o s7 := (Option.some.inj h).symm
+    have hI7 := (meek_loop_identity A hA hz o _ iterFuel _ _ s7 (MInv.meekInit A hA h0) hl).1
+    have hx := loopN_ext (MInv A) (fun s => !meekCountComplete s) (meekBody A o (A.divV A.one (A.ofInt (10 ^ o.omega10))) iterFuel)
+      (fun s hs _ _ => hs.meekBody A hA hz o _ iterFuel) (fun s hs _ => ext_meekBody A hA hz o _ iterFuel s hs) _ _ _
+      (MInv.meekInit A hA h0) hl
+    rw [ht]
+    exact (ext_meekInit A h0).trans (hx.trans (ext_meekEpilogue A hA hz o s7 hI7))
+
 end Droop
